@@ -1,4 +1,5 @@
 import Properties.C04
+import Properties.Full
 #print axioms Hive.C04.bounds_spend
 #print axioms Hive.C04.bounds_charge
 #print axioms Hive.C04.ledger_spend
@@ -9,3 +10,5 @@ import Properties.C04
 #print axioms Hive.C04.no_move_on_empty
 #print axioms Hive.C04.reachable
 #print axioms Hive.C04.concrete
+#print axioms Hive.Full.C04
+#print axioms Hive.Full.vehicle_ids
